@@ -363,11 +363,37 @@ func (t *tableEval) expr(f *Func, e ast.Expr, env tenv) (tval, bool) {
 			return tval{I: l.I + r.I}, true
 		case token.SUB:
 			return tval{I: l.I - r.I}, true
+		case token.MUL:
+			return tval{I: l.I * r.I}, true
+		case token.QUO:
+			if r.I != 0 {
+				if unsigned {
+					return tval{I: int64(uint64(l.I) / uint64(r.I))}, true
+				}
+				return tval{I: l.I / r.I}, true
+			}
+		case token.REM:
+			if r.I != 0 {
+				return tval{I: l.I % r.I}, true
+			}
 		}
 	case *ast.CallExpr:
 		ce := resolveCallee(info, x)
 		if ce.Conv && len(x.Args) == 1 {
 			return t.expr(f, x.Args[0], env)
+		}
+		if (ce.Builtin == "max" || ce.Builtin == "min") && len(x.Args) >= 1 {
+			var best tval
+			for i, a := range x.Args {
+				v, ok := t.expr(f, a, env)
+				if !ok || v.IsBool {
+					return tval{}, false
+				}
+				if i == 0 || (ce.Builtin == "max" && v.I > best.I) || (ce.Builtin == "min" && v.I < best.I) {
+					best = v
+				}
+			}
+			return best, true
 		}
 		if g := t.c.P.byObj[ce.Key]; g != nil && g.Lib && !ce.Iface {
 			var args []tval
